@@ -5,6 +5,7 @@ package icmp
 import (
 	"fmt"
 	"math/rand"
+	"sync"
 
 	"github.com/google/gopacket"
 	"github.com/google/gopacket/layers"
@@ -58,6 +59,11 @@ type PacketProcessor struct {
 	results  scan.ResultChan
 	parser   *gopacket.DecodingLayerParser
 
+	// The udp scan runs one engine per chunk of port ranges, all of them with this
+	// processor, and the receiver of a chunk may still be processing its last packet
+	// when the receiver of the next chunk starts: the decoding state below must not
+	// be used by two receivers at the same time
+	rcvMu      sync.Mutex
 	rcvDecoded []gopacket.LayerType
 	rcvEth     layers.Ethernet
 	rcvIP      layers.IPv4
@@ -82,6 +88,8 @@ func (p *PacketProcessor) Results() <-chan scan.Result {
 }
 
 func (p *PacketProcessor) ProcessPacketData(data []byte, _ *gopacket.CaptureInfo) (err error) {
+	p.rcvMu.Lock()
+	defer p.rcvMu.Unlock()
 	if err = p.parser.DecodeLayers(data, &p.rcvDecoded); err != nil {
 		return
 	}
